@@ -102,7 +102,13 @@ fn extract_host(req: &Request) -> S3Result<Option<String>> {
 }
 
 fn is_socket_addr_or_ip_addr(host: &str) -> bool {
-    host.parse::<SocketAddr>().is_ok() || host.parse::<IpAddr>().is_ok()
+    if host.parse::<SocketAddr>().is_ok() || host.parse::<IpAddr>().is_ok() {
+        return true;
+    }
+    // an IPv6 literal without port is written in brackets in the Host header, e.g. `[::1]`
+    host.strip_prefix('[')
+        .and_then(|h| h.strip_suffix(']'))
+        .is_some_and(|h| h.parse::<std::net::Ipv6Addr>().is_ok())
 }
 
 fn convert_parse_s3_path_error(err: &ParseS3PathError) -> S3Error {
